@@ -1,7 +1,7 @@
 (* C11 -- file contents written through a Path are read back identically.
    Property theorems only; proofs are in ProofC11.v.  The transfer protocol (run() proxy, tee, ^D, terminate0) is
    decided end-to-end; these theorems are the codec and payload facts it relies on. *)
-From TV Require Import Base Utf8 Regex Channel ChannelLemmas Hush Session ProofSession ProofC19 Sh Base64 ProofC11 Proxy PathIO ProofC11b.
+From TV Require Import Base Utf8 Regex Channel ChannelLemmas Hush Session ProofSession ProofC19 Sh Base64 ProofC11 Proxy PathIO ProofC11b ProofC05 ProofAlien ProofC11c.
 
 (* (1) decoding the encoding gives back the data: every byte string, all 256 values, every length *)
 Theorem C11_base64_roundtrip :
@@ -50,3 +50,32 @@ Theorem C11_read_bytes_exact :
   exists c', read_bytes_model cmd (st1 :: st2 :: sts) c = (X0Ok d, c') /\ insync c'.
 Proof. exact read_bytes_exact. Qed.
 Print Assumptions C11_read_bytes_exact.
+
+(* (6) write_bytes, the data phase: for EVERY fragmentation of the echoes (stgs: arbitrary timed pieces whose
+       concatenation is line CR LF), every partial-write behaviour and with both death strings ("tee: " and the shell
+       prompt) registered, all lines are sent completely and in order, exactly their echoes are read back, nothing is
+       raised, and the proxy is between two lines again (nothing pending).  `calm` = the registered death strings each
+       contain a character that the echo stream never uses (blank / colon), so they cannot fire on it. *)
+Theorem C11_write_bytes_data_phase :
+  forall lines (stgs : list stage) p hs,
+  between p hs ->
+  Forall (fun l => l <> [] /\ length l <= 76 /\ Forall b64_char l /\ any_in (blacklist (pc p)) (l ++ [CR]) = false) lines ->
+  Forall2 (fun l stg => wf_pend stg /\ cat stg = l ++ [CR; LF]) lines stgs ->
+  exists p',
+    send_lines lines stgs p = (None, p', []) /\
+    between p' (map (fun h => h ++ echoes lines) hs) /\
+    wr (io (pc p')) = wr (io (pc p)) ++ sent lines /\
+    alive p' = alive p /\ early p' = early p /\ gdone p' = gdone p /\
+    ctx (pc p') = ctx (pc p) /\ prompt (pc p') = prompt (pc p) /\ blacklist (pc p') = blacklist (pc p).
+Proof. exact send_lines_exact. Qed.
+Print Assumptions C11_write_bytes_data_phase.
+
+(* (6b) and what was sent decodes (as `base64 -d` reads it: CR / LF skipped) to the data, for every byte string *)
+Theorem C11_sent_lines_decode_to_the_data :
+  forall d, Forall is_byte d -> b64dec (sent (b64_lines d)) = d.
+Proof. exact sent_lines_decode. Qed.
+Print Assumptions C11_sent_lines_decode_to_the_data.
+
+Theorem C11_tee_death_string_cannot_fire_on_echoes : alien okc TEE_STR.
+Proof. exact tee_alien. Qed.
+Print Assumptions C11_tee_death_string_cannot_fire_on_echoes.
